@@ -4,8 +4,8 @@ from ..sim import Monitor
 from .common import all_demes
 
 PROP = "C08"
-N_QUICK = 3000
-N_THOROUGH = 60000
+N_QUICK = 8000
+N_THOROUGH = 200000
 RULE = ("Plans: always a LevelLimit(L) in the mechanism (both factories and composed chains in any order), L from 1, "
         "2-3 level trees with several parents per level, DemeLimit(k>1), NBC generators (several candidates per "
         "parent), plateau objectives (ties at the cut), both directions, LSCs and injected LSC verdicts that free "
